@@ -242,7 +242,7 @@ fn run(ctx: &Ctx) {
     let corpus: Vec<Vec<u8>> = gen::corpus().into_iter().map(|c| c.1).filter(|d| d.len() <= ctx.tier.pick(600, 4000) && !refxml::is_utf16_like(d)).collect();
     let pieces: [usize; 4] = [1, 3, 7, 0];
     // documents: corpus + seeded soups; x piece sizes x trim on/off x sync/async
-    let nsoup = ctx.tier.pick(300u64, 6000);
+    let nsoup = ctx.tier.pick(1500u64, 20_000);
     let ndocs = corpus.len() as u64 + nsoup;
     ctx.run_groups(
         "docs-x-chunkings-x-every-refill-x-kinds",
